@@ -98,7 +98,8 @@ func checkPipelineInclusion(pipelines map[string][]*stageDefinition) error {
 		}
 		state[name] = visiting
 		for _, def := range pipelines[name] {
-			if def != nil && def.Task == "" && def.Pipeline != "" {
+			// (as in buildPipeline: a stage without a task refers to the pipeline it names, whatever that name is)
+			if def != nil && def.Task == "" {
 				if err := visit(def.Pipeline); err != nil {
 					return err
 				}
